@@ -190,7 +190,7 @@ CHECKS = {
                        "delivered its terminal and had its teardown run. Retry under cancellation: no further attempt and Error(context.Canceled)."
                        " Asynchronous attempts are repeated in virtual time with teardowns that take time and a first notification that comes after the operator started waiting: the next attempt may only be subscribed once the previous teardown has FINISHED."
                        " Retry with a Delay (virtual time): spacing, budget, and a cancellation of the subscription context during a wait ends the stream at that instant whatever context the failed attempt's error carried."
-                       " The same operators over attempts ending with Error(nil): same output, same number of subscriptions of the source as with a non-nil error. Budgets at the top of the parameter range (Retry MaxRetries = MaxUint64, MaxUint64-1, MaxInt64; RepeatWith(MaxInt64)) behave as "as many as it takes"."),
+                       " The same operators over attempts ending with Error(nil): same output, same number of subscriptions of the source as with a non-nil error. Budgets at the top of the parameter range (Retry MaxRetries = MaxUint64, MaxUint64-1, MaxInt64; RepeatWith(MaxInt64)) behave as 'as many as it takes'."),
         "level_note": "Catch is a listed finding (fallback subscribed from inside the error callback). Retry with a Delay is exercised in the virtual-time check C16.",
     },
     "C11": {
